@@ -67,8 +67,9 @@ def make_case(rng, fluids, small=False):
 def build(case):
     from srlife.thermohydraulics import flowpath
     mat = c18.make_fluid(case["fluid"])
+    kw = {"miter": case["miter"]} if "miter" in case else {}
     fp = flowpath.FlowPath(np.array(case["times"]), np.array(case["mass"]), np.array(case["inlet"]),
-                           rtol=case.get("rtol", 1e-6), atol=case.get("atol", 1e-8))
+                           rtol=case.get("rtol", 1e-6), atol=case.get("atol", 1e-8), **kw)
     for p in case["panels"]:
         fp.add_panel(np.array(p["weights"]), p["ri"], p["h"], np.array(p["metal"]), mat)
     return fp, mat
@@ -372,6 +373,7 @@ def run(ctx):
     cases = [make_case(rng, fluids, small=(i < n_solve)) for i in range(n_corr)]
     lines, reals, metas = [], [], []
     solved, solve_bad, solve_fail = 0, [], 0
+    n_starved, starved_cases = [0, 0], {}      # [raised, returned]
     for ci, case in enumerate(cases):
         fp, mat = build(case)
         num = c18.fluid_numbers(mat)
@@ -387,6 +389,19 @@ def run(ctx):
                     solve_bad.append((ci, pb, [float(x) for x in Tsol]))
             except RuntimeError as e:
                 solve_fail += 1  # a loud failure is not a C14 matter (C17)
+            # the same chain with an iteration budget too small to converge: either a loud failure, or -- if the
+            # solver does return -- a state that balances heat and mass like any other returned state
+            starved = dict(case, miter=1 + ci % 2)
+            try:
+                fps, _ = build(starved)
+                Ts_ = fps.solve(t)
+                pb = solve_predicate(starved, num, fps, Ts_, t)
+                n_starved[1] += 1
+                if pb:
+                    solve_bad.append((ci, ["with miter=%d: %s" % (starved["miter"], m) for m in pb], [float(x) for x in Ts_]))
+                    starved_cases[ci] = starved
+            except RuntimeError:
+                n_starved[0] += 1
         for label, T in states:
             real = real_links(fp, T, t)
             lines.append(model_line(case, mat, fp, T, t))
@@ -446,6 +461,7 @@ def run(ctx):
                    "%d of %d differ; first: %s" % (len(dof_bad), len(dof_lines), dof_bad[:1]))
     ctx.obligation("correspondence: link residuals / dof_map / recover_tube_results of the real code == model on Float (1e-10)",
                    not mism, "%d mismatches in %d (chain, state) cases; first: %s" % (len(mism), len(lines), str(mism[:1])[:400]))
+    ctx.extra["iteration_starved_solves"] = {"raised": n_starved[0], "returned": n_starved[1]}
     ctx.obligation("property predicate on every returned FlowPath.solve solution (independent numpy)", not solve_bad,
                    "%d of %d solutions violate; first: %s" % (len(solve_bad), solved, str(solve_bad[:1])[:400]))
     ctx.obligation("solves attempted converged (else nothing was tested)", solved >= max(1, n_solve // 2),
@@ -458,7 +474,7 @@ def run(ctx):
         solve_bad.sort(key=lambda x: (len(cases[x[0]]["panels"]), sum(len(p["weights"]) for p in cases[x[0]]["panels"])))
         ci, pb, Tsol = solve_bad[0]
         ctx.violation("real FlowPath.solve/recover_tube_results: " + pb[0],
-                      {"case": cases[ci], "returned_T": Tsol, "all_failures": pb, "n_failing_solutions": len(solve_bad)},
+                      {"case": starved_cases.get(ci, cases[ci]) if any("with miter=" in m for m in pb) else cases[ci], "returned_T": Tsol, "all_failures": pb, "n_failing_solutions": len(solve_bad)},
                       signature="c14:" + pb[0].split(":")[0].split(" ")[0])
     elif sl_bad:
         ctx.violation("add_panel_from_object hands the panel link metal temperatures from the wrong grid indices (%s)" % sl_bad[0][1],
